@@ -718,6 +718,7 @@ class Sim:
         h = self.h
         dev_spec = scn["device"]
         device = B.build_device(dev_spec, mesh_from=self.mesh_from, history=scn.get("device_history"))
+        self.base_mesh = device.mesh  # the dimensionless mesh before any life cycle touched the device
         used = scn.get("device_used_before") or scn.get("env", {}).get("device_used_before")
         if used:
             # device life cycle: this very Device object was already simulated on (another field, a few
